@@ -10,7 +10,7 @@ use serde_json::Value;
 
 use crate::util::*;
 
-const WORDS: &[&str] = &["foo", "föö", "日本", "a1_b", "a\u{200d}b"];
+const WORDS: &[&str] = &["foo", "föö", "日本", "a1_b", "a\u{200d}b", "t\u{1b}z"];
 const PUNCT: &[&str] = &["!", ",", ":", "="];
 
 fn tok_text(t: &Value, word: &str, punct: &str) -> String {
